@@ -229,7 +229,9 @@ class Gen:
             else:
                 code = [rng.randrange(12) for _ in range(n)]
             ev.update(perm=code, form=rng.randrange(2), unk=self._unk(),
-                      salt=rng.randrange(50))
+                      salt=rng.randrange(50),
+                      dup=rng.choice([1, 2]) if cfg['faults'] in ('F2', 'all')
+                      and rng.random() < 0.1 else 0)
         elif name in ('transpose', 'copy'):
             pass
         elif name == 'align_to':
